@@ -487,22 +487,30 @@ fn text_of(body: &Pol) -> String {
     body.text(&Style::default())
 }
 
-fn build_set(ops: &[Op], t: &Tables) -> Result<(PolicySet, PsModel), String> {
+/// failure while building the fixed objects: `Some(fingerprint)` = an API call that must
+/// succeed by the documentation failed (a verdict), `None` = harness error
+type TErr = (Option<&'static str>, String);
+
+fn imp(fp: &'static str, msg: String) -> TErr {
+    (Some(fp), msg)
+}
+
+fn build_set(ops: &[Op], t: &Tables) -> Result<(PolicySet, PsModel), TErr> {
     let mut s = PolicySet::new();
     let mut m = PsModel::default();
     for op in ops {
         let (p, why) = predict(&m, op, t);
         if p != Pred::Ok {
-            return Err(format!("fixed set {}: {} is predicted {p:?} ({why})", show_hist(ops), op.show()));
+            return Err((None, format!("fixed set {}: {} is predicted {p:?} ({why})", show_hist(ops), op.show())));
         }
-        let ret = exec(&mut s, op, t).map_err(|e| format!("fixed set {}: {} failed: {e}", show_hist(ops), op.show()))?;
-        m = apply_ok(&m, op, &ret, t).map_err(|b| format!("{b:?}"))?;
+        let ret = exec(&mut s, op, t).map_err(|e| imp("fixed:operand-set", format!("building the fixed set {}: {} failed although its documented preconditions hold: {e}", show_hist(ops), op.show())))?;
+        m = apply_ok(&m, op, &ret, t).map_err(|b| (None, format!("{b:?}")))?;
     }
     Ok((s, m))
 }
 
 impl Tables {
-    fn new(tier: Tier) -> Result<Tables, String> {
+    fn new(tier: Tier) -> Result<Tables, TErr> {
         let store = store1();
         let mut t = Tables {
             tier,
@@ -525,21 +533,21 @@ impl Tables {
         let (sb, tbs) = (t.sbodies.clone(), t.tbodies.clone());
         for id in &ids {
             for (b, body) in sb.iter().enumerate() {
-                let p = Policy::parse(Some(PolicyId::new(id)), text_of(body)).map_err(|e| format!("static body S{b} does not parse: {e}"))?;
+                let p = Policy::parse(Some(PolicyId::new(id)), text_of(body)).map_err(|e| imp("fixed:parse-static", format!("static body S{b} `{}` does not parse: {e}", text_of(body))))?;
                 t.statics.insert((b as u8, id.clone()), p);
             }
             for (b, body) in tbs.iter().enumerate() {
-                let p = Template::parse(Some(PolicyId::new(id)), text_of(body)).map_err(|e| format!("template body T{b} does not parse: {e}"))?;
+                let p = Template::parse(Some(PolicyId::new(id)), text_of(body)).map_err(|e| imp("fixed:parse-template", format!("template body T{b} `{}` does not parse: {e}", text_of(body))))?;
                 t.templates.insert((b as u8, id.clone()), p);
             }
         }
         // template-linked Policy objects (taken out of an auxiliary set)
         for id in &ids {
             let mut aux = PolicySet::new();
-            let tpl = Template::parse(Some(PolicyId::new("aux_template")), text_of(&t.tbodies[0])).map_err(|e| e.to_string())?;
-            aux.add_template(tpl).map_err(|e| e.to_string())?;
-            aux.link(PolicyId::new("aux_template"), PolicyId::new(id), Bind { p: Some(ua()), r: None }.to_api()).map_err(|e| e.to_string())?;
-            let p = aux.policy(&PolicyId::new(id)).ok_or("aux link not found")?.clone();
+            let tpl = Template::parse(Some(PolicyId::new("aux_template")), text_of(&t.tbodies[0])).map_err(|e| imp("fixed:parse-template", e.to_string()))?;
+            aux.add_template(tpl).map_err(|e| imp("fixed:aux-link", format!("add_template on an empty set failed: {e}")))?;
+            aux.link(PolicyId::new("aux_template"), PolicyId::new(id), Bind { p: Some(ua()), r: None }.to_api()).map_err(|e| imp("fixed:aux-link", format!("link(T0, {{?principal}}) on a fresh set failed: {e}")))?;
+            let p = aux.policy(&PolicyId::new(id)).ok_or_else(|| imp("fixed:aux-link", "policy(id) is None right after link(.., id, ..) succeeded".to_string()))?.clone();
             t.linked_objs.insert(id.clone(), p);
         }
         // merge operands: chosen so that, against the explored states, every kind x kind
@@ -567,9 +575,9 @@ impl Tables {
         t.inits.push((PolicySet::new(), PsModel::default()));
         {
             let src = format!("{}\n{}\n", text_of(&t.sbodies[0]), text_of(&t.tbodies[1]));
-            let mut s: PolicySet = src.parse().map_err(|e| format!("initial set 1 does not parse: {e}"))?;
+            let mut s: PolicySet = src.parse().map_err(|e| imp("fixed:init-from-str", format!("PolicySet::from_str rejects `{src}`: {e}")))?;
             let bind = b(Some(gg()), Some(gg()));
-            s.link(PolicyId::new(pid(1)), PolicyId::new(pid(2)), bind.to_api()).map_err(|e| format!("initial set 1 link: {e}"))?;
+            s.link(PolicyId::new(pid(1)), PolicyId::new(pid(2)), bind.to_api()).map_err(|e| imp("fixed:init-link", format!("after from_str(S0; T1): link(policy1, policy2, {}) failed although exactly the template's slots are bound: {e}", bind.show())))?;
             let mut m = PsModel::default();
             m.statics.insert(pid(0), 0);
             m.templates.insert(pid(1), 1);
@@ -589,7 +597,7 @@ impl Tables {
                     {"templateId": pid(3), "newId": pid(4), "values": vals(&b1)},
                 ],
             });
-            let s = PolicySet::from_json_value(doc.clone()).map_err(|e| format!("initial set 2 rejected: {e}: {doc}"))?;
+            let s = PolicySet::from_json_value(doc.clone()).map_err(|e| imp("fixed:init-from-json", format!("PolicySet::from_json_value rejects {doc}: {e}")))?;
             let mut m = PsModel::default();
             m.templates.insert(pid(0), 0);
             m.templates.insert(pid(3), 2);
@@ -599,7 +607,7 @@ impl Tables {
             t.inits.push((s, m));
         }
         for (_, m) in t.inits.iter().chain(t.others.iter()) {
-            m.well_formed()?;
+            m.well_formed().map_err(|e| (None, e))?;
         }
         Ok(t)
     }
@@ -1502,7 +1510,12 @@ fn replay(path: &str) -> i32 {
     // a replayed history may come from either tier
     let t = match Tables::new(Tier::Thorough) {
         Ok(t) => t,
-        Err(e) => {
+        Err((Some(fp), e)) => {
+            println!("  [{fp}] {e}");
+            println!("VIOLATION property=C08 replay={path}");
+            return 1;
+        }
+        Err((None, e)) => {
             eprintln!("MACHINERY ERROR: {e}");
             return 2;
         }
@@ -1581,7 +1594,15 @@ pub fn run(tier: Tier, replay_file: Option<&str>) -> i32 {
     quiet_panics();
     let t: &'static Tables = match Tables::new(tier) {
         Ok(t) => TABLES.get_or_init(|| t),
-        Err(e) => {
+        Err((Some(fp), e)) => {
+            // an API call that the documentation says must succeed failed while the fixed
+            // operands were built: the check cannot hold (and cannot explore any further)
+            let ctx = Ctx::new("C08", tier);
+            ctx.case(0, "fixed-objects:err", true);
+            ctx.violation(fp, e.clone(), json!({"history": [], "op": null, "readable": e}));
+            return ctx.finish("building the fixed operands failed; nothing was explored", json!({"tier": tier.name()}), &[], false);
+        }
+        Err((None, e)) => {
             eprintln!("MACHINERY ERROR: cannot build the fixed objects: {e}");
             return 2;
         }
